@@ -5,7 +5,7 @@ CONSTANTS
   Directed = @DIRECTED@
   Weights = @WEIGHTS@
   Emit = @EMIT@
-INVARIANTS TypeOK Closed Canon Mirror Symm EmitState
+INVARIANTS TypeOK Closed Canon Mirror Symm RevLaw EdgeWeightLaw EmitState
 PROPERTIES PanicLeavesUnchanged RemoveNodeExact
 VIEW View
 CHECK_DEADLOCK FALSE
